@@ -20,6 +20,10 @@ CHECKS = {
    technique="TLA+ refinement: implementation-shaped term machine DSTerms refines the documented closed forms DSDoc (TLC, exact dyadic coefficients, symbolic gradients); TLC-exported behaviours interpreted in float64 and compared with the real optimizer's update, statistics and roots",
    text="TLC proves, for every configuration of the bounded option product (7 graft types, beta1, beta2 incl. 1, Nesterov, moving-average momentum, weight decay x decoupling, learning-rate decoupling x schedule, start step, statistics/preconditioner intervals, skip, replicated/sharded) and every step up to T, that the recursively updated buffers of the implementation-shaped machine equal the documented non-recursive closed forms (statistics decay weights, root provenance incl. the sharded one-step staleness, both momentum series incl. the weight-decay geometric series, Nesterov, placement of the learning rate) - coefficient arithmetic is exact and gradient values are universally quantified. Seeded TLC simulations of the same module export behaviours whose update terms the harness interprets in float64 (a reference written from the documentation: merge, blocks, per-axis Gram matrices, inverse 2k-th roots with the documented ridge, graft rescale) on 10 parameter geometries (ranks 1-4, ragged blocks, merged dims, INPUT/OUTPUT types, exponent override, Newton and eigh) and compares with the real update (2e-3 of max-abs; measured 8e-6), statistics (1e-5) and stored roots (1e-3), float32 trees under jax_enable_x64.",
    note="Trusted: TLC; the float64 interpretation of ~10 primitive symbols (harness/refds.py); the ridge of a Newton root uses the retry count the optimizer reports; relative ridge 2^-10 and dense seeded gradients keep the comparison well conditioned. The gate (C03), the cadence under scheduled intervals (C04) and quantised state (C11) are decided elsewhere."),
+ "C05": dict(level="model_checking", ref="4/C05",
+   technique="TLC invariants on the DSTerms term machine and the TFControl warm-up action property; exported behaviours executed on the real optimizers in every preconditioner representation, norm and direction judged against the code's own twin configurations and float64 closed forms of the graft step",
+   text="TLC shows on DSTerms (momentum and weight decay off) that the emitted update is exactly one symbol: -lr(count) x S(s) (direction of the preconditioned gradient rescaled to the graft norm) from the start step on for a preconditioned parameter, -lr(count) x F(s) (the graft step) before it and always for skipped parameters, for all 6 graft types, start steps, skip, intervals, learning-rate coupling/schedule and both modes; TFControl's Warmup property gives the same for Tearfree incl. masked parameters. Each exported behaviour runs on the real code in full, sharded, int16-quantized, low-rank compressed (+r, -r), frequent-directions representations and on Tearfree Shampoo/Sketchy with SGD/RMSProp/AdaFactor grafts, dense and sparse (exact zeros) gradients: S(s) => |u| = |graft step| (1e-5) and cos(u, preconditioned gradient) = 1 (1e-5), u = 0 for a zero direction; F(s) => u = graft step (1e-6); the graft step itself vs its closed form (1e-5).",
+   note="Trusted: TLC; direction oracle = same configuration with graft NONE (statistics/roots do not depend on the graft type), graft-step oracle = same configuration that never starts preconditioning (different XLA programs: 1e-6/1e-5 tolerances, measured 1e-7). AdaFactor's step is taken from optax (not code under test)."),
 }
 
 NA_REASON = "check not built yet in this round (work in progress; see DESIGN.md section 9)"
